@@ -228,7 +228,7 @@ def main(tier: str) -> int:
                     for fs in (True, False):
                         j = len(cases)
                         cases.append({"cls": "general", "shape": shape, "n": n, "r": r, "flipsign": fs, "holder": h,
-                                      "seed": sd + (n + r) % 4, "nonorth": bool(j % 3 == 1 and h in ("dense", "sparse", "ktensor")),
+                                      "seed": sd + (n + r) % 4, "nonorth": bool(j % 3 == 1),     # (for every holder: a Tucker tensor with unit-norm but oblique factors)
                                       "scale": [1.0, 1e-9, 1.0, 1e7][(j // 2) % 4]})
     for shape in ([4, 4, 4], [3, 3], [3, 3, 3, 3]):
         for n in range(len(shape)):
